@@ -6,10 +6,12 @@ export GOFLAGS=-mod=mod GOPROXY=off
 unset GOTOOLCHAIN GOSUMDB
 mkdir -p evidence replays .scratch
 go vet -tags verif ./internal/... >/dev/null 2>&1 || true
-go test -tags verif -count=1 -run '^$' ./props/... ./internal/...
+PKGS=$(sed -e '/^#/d' -e '/^$/d' enabled.txt | tr 'A-Z' 'a-z' | sed 's|^|./props/|')
+go test -tags verif -count=1 -run '^$' $PKGS ./internal/...
 python3 - <<'PY'
 import json,subprocess,os,glob
-cfg={os.path.basename(os.path.dirname(f)).upper(): json.load(open(f)) for f in glob.glob('props/c*/check.json')}
+en=[l.strip() for l in open('enabled.txt') if l.strip() and not l.startswith('#')]
+cfg={os.path.basename(os.path.dirname(f)).upper(): json.load(open(f)) for f in glob.glob('props/c*/check.json') if os.path.basename(os.path.dirname(f)).upper() in en}
 pk=sorted({c.get('pkg','./props/'+k.lower()) for k,c in cfg.items() if c.get('race',{}).get('quick') or c.get('race',{}).get('thorough')})
 if pk:
     subprocess.check_call(['go','test','-tags','verif','-race','-count=1','-run','^$']+pk)
